@@ -51,6 +51,10 @@ pub struct NogoodCase {
     pub heu: Heu,
     pub entry: Entry,
     pub chan: Chan,
+    /// the Adf object is kept alive until the consumer loop has ended (compute, then drain —
+    /// the sender must have been dropped by the call itself, not by the object's destructor)
+    #[serde(default)]
+    pub adf_outlives_consumer: bool,
 }
 
 pub struct Nogood;
@@ -126,6 +130,25 @@ impl Scenario for Nogood {
     }
 
     fn generate(&self, rng: &mut Rng, thorough: bool) -> NogoodCase {
+        if rng.chance(1, if thorough { 3000 } else { 12000 }) {
+            // many models: k independent even loops a_i = neg(b_i), b_i = neg(a_i) have 2^k
+            // stable models (= two-valued models); more than 128 from k = 8
+            let k = if thorough { rng.range(7, 9) } else { 8 } as usize;
+            let n = 2 * k;
+            let names: Vec<String> = (0..n).map(|i| format!("s{i}")).collect();
+            let acs = (0..n).map(|i| refsem::F::Not(Box::new(refsem::F::Atom(i ^ 1)))).collect();
+            let spec = AdfSpec { names, acs, ac_order: (0..n).collect() };
+            let heu = match rng.below(3) {
+                0 => Heu::Simple,
+                1 => Heu::Rand(rng.bytes32()),
+                _ => Heu::Adversary,
+            };
+            let entry = match rng.below(3) {
+                0 | 1 => Entry::Iterator,
+                _ => Entry::StableChannel,
+            };
+            return NogoodCase { spec, build: Build::Native, heu, entry, chan: Chan::Unbounded, adf_outlives_consumer: rng.chance(1, 2) };
+        }
         if rng.chance(1, if thorough { 2000 } else { 10000 }) {
             // long searches: 2^n leaves, more than 500 learned nogoods of one arity from n = 10
             // (the library's nogood store is scanned linearly, so these runs take about a second)
@@ -143,7 +166,7 @@ impl Scenario for Nogood {
                 1 => Entry::StableChannel,
                 _ => Entry::TwoValChannel,
             };
-            return NogoodCase { spec, build: Build::Native, heu, entry, chan: if rng.chance(1, 2) { Chan::Unbounded } else { Chan::Bounded(rng.below(3) as usize) } };
+            return NogoodCase { spec, build: Build::Native, heu, entry, chan: if rng.chance(1, 2) { Chan::Unbounded } else { Chan::Bounded(rng.below(3) as usize) }, adf_outlives_consumer: rng.chance(1, 2) };
         }
         let n = if rng.chance(1, 12) { 1 } else { rng.range(2, if thorough { 7 } else { 6 }) } as usize;
         // a share of structured worst cases: every statement supports only itself (2^n models)
@@ -187,6 +210,7 @@ impl Scenario for Nogood {
             heu,
             entry,
             chan,
+            adf_outlives_consumer: rng.chance(1, 2),
         }
     }
 
@@ -195,7 +219,15 @@ impl Scenario for Nogood {
         let mut stats = Stats::default();
         let n = case.spec.n();
         let self_support = n > 7 && case.spec.acs.iter().enumerate().all(|(i, f)| *f == refsem::F::Atom(i));
-        let (want_stable, want_two, grounded_has_und) = if self_support {
+        let even_loops = n > 7 && n % 2 == 0 && case.spec.acs.iter().enumerate().all(|(i, f)| *f == refsem::F::Not(Box::new(refsem::F::Atom(i ^ 1))));
+        let (want_stable, want_two, grounded_has_und) = if even_loops {
+            // closed form: one of each pair is true, the other false; all of them are stable
+            let k = n / 2;
+            let all: Vec<Interp> = (0..(1u32 << k))
+                .map(|w| (0..n).map(|s| if ((w >> (s / 2)) & 1 == 1) == (s % 2 == 0) { V::T } else { V::F }).collect())
+                .collect();
+            (all.clone(), all, true)
+        } else if self_support {
             // large structured family (every statement supports only itself): the definitional
             // answers are known in closed form — every assignment is a two-valued model, only
             // the all-false one is stable — so no 3^n / 4^n brute force is needed
@@ -215,6 +247,7 @@ impl Scenario for Nogood {
             Chan::Bounded(k) => crossbeam_channel::bounded::<Vec<Term>>(k),
         };
         let probe = sender.sim_probe();
+        let (done_tx, done_rx) = crossbeam_channel::unbounded::<()>();
         let mut bodies: Vec<Box<dyn FnOnce() + Send + '_>> = Vec::new();
         let with_consumer = case.entry != Entry::Iterator;
         {
@@ -268,6 +301,13 @@ impl Scenario for Nogood {
                         adf.two_val_nogood_channel(heu, s);
                     }
                 }
+                if case.adf_outlives_consumer && case.entry != Entry::Iterator {
+                    // wait (as a simulated thread) for the consumer loop to end while `adf` is
+                    // still alive; if the call kept a clone of the sender somewhere in the
+                    // object, everybody is blocked now and the scheduler says so
+                    let _ = done_rx.recv();
+                }
+                drop(adf);
             }));
         }
         if with_consumer {
@@ -278,9 +318,11 @@ impl Scenario for Nogood {
                     consumed.lock().unwrap().push(m);
                 }
                 consumer_finished.store(true, std::sync::atomic::Ordering::SeqCst);
+                let _ = done_tx.send(());
             }));
         } else {
             drop(receiver);
+            drop(done_tx);
         }
 
         let cfg = sched::Config {
@@ -395,6 +437,11 @@ impl Scenario for Nogood {
         if c.chan != Chan::Unbounded {
             let mut d = c.clone();
             d.chan = Chan::Unbounded;
+            out.push(d);
+        }
+        if c.adf_outlives_consumer {
+            let mut d = c.clone();
+            d.adf_outlives_consumer = false;
             out.push(d);
         }
         if c.build != Build::Native {
